@@ -308,6 +308,15 @@ func (dsc *dataStoreCommand) setDirty() {
 	dsc.ds.data.dirty = true
 }
 
+// a key modified in place gets a new id, like a replaced one, so that WATCH notices
+func (dsc *dataStoreCommand) setModified(keyName string) {
+	if sk, exists := dsc.ds.getStoreKey(keyName); exists {
+		dsc.ds.dataObjectNumber++
+		sk.id = dsc.ds.dataObjectNumber
+	}
+	dsc.setDirty()
+}
+
 func (dsc *dataStoreCommand) getKeyObject(keyName string) (sk *storeKey, exists bool) {
 	dsc.lock()
 	defer dsc.unlock()
@@ -388,7 +397,7 @@ func (dsc *dataStoreCommand) getKeySetExpiration(keyName string, expiration time
 		if strBytes != nil {
 			val = string(strBytes)
 			sk.expiresAt = expiration
-			dsc.setDirty()
+			dsc.setModified(keyName)
 		} else {
 			exists = VALUE_WRONG_TYPE
 		}
@@ -965,7 +974,7 @@ func (dsc *dataStoreCommand) expire(keyName string, expiration time.Time, nx, xx
 	}
 
 	sk.expiresAt = expiration
-	dsc.setDirty()
+	dsc.setModified(keyName)
 	output.data = respInt(1)
 	return
 }
@@ -991,7 +1000,7 @@ func (dsc *dataStoreCommand) persist(keyName string) (output respValue) {
 		return
 	}
 	sk.expiresAt = maxTime
-	dsc.setDirty()
+	dsc.setModified(keyName)
 	output.data = respInt(1)
 	return
 }
@@ -1160,7 +1169,7 @@ func (dsc *dataStoreCommand) lpushUnlocked(keyName string, list *storeList, elem
 	}
 	list.head = &item
 	list.count++
-	dsc.setDirty()
+	dsc.setModified(keyName)
 }
 
 func (dsc *dataStoreCommand) lpush(keyName string, values [][]byte) (output respValue) {
@@ -1228,7 +1237,7 @@ func (dsc *dataStoreCommand) lpopUnlocked(keyName string, list *storeList, item 
 		dsc.ds.data.remove(keyName)
 	}
 
-	dsc.setDirty()
+	dsc.setModified(keyName)
 }
 
 func (dsc *dataStoreCommand) lpop(keyName string, count int) (values [][]byte, err *respErrorString) {
@@ -1270,7 +1279,7 @@ func (dsc *dataStoreCommand) rpushUnlocked(keyName string, list *storeList, elem
 	}
 	list.tail = &item
 	list.count++
-	dsc.setDirty()
+	dsc.setModified(keyName)
 }
 
 func (dsc *dataStoreCommand) rpush(keyName string, values [][]byte) (output respValue) {
@@ -1338,7 +1347,7 @@ func (dsc *dataStoreCommand) rpopUnlocked(keyName string, list *storeList, item 
 		dsc.ds.data.remove(keyName)
 	}
 
-	dsc.setDirty()
+	dsc.setModified(keyName)
 }
 
 func (dsc *dataStoreCommand) rpop(keyName string, count int) (values [][]byte, err *respErrorString) {
@@ -1410,7 +1419,7 @@ func (dsc *dataStoreCommand) lindex(keyName string, index int) (output respValue
 	return
 }
 
-func (dsc *dataStoreCommand) linsertBeforeUnlocked(list *storeList, pivotItem *listItem, element []byte) {
+func (dsc *dataStoreCommand) linsertBeforeUnlocked(keyName string, list *storeList, pivotItem *listItem, element []byte) {
 	newItem := listItem{
 		element: element,
 	}
@@ -1425,10 +1434,10 @@ func (dsc *dataStoreCommand) linsertBeforeUnlocked(list *storeList, pivotItem *l
 	pivotItem.prev = &newItem
 
 	list.count++
-	dsc.setDirty()
+	dsc.setModified(keyName)
 }
 
-func (dsc *dataStoreCommand) linsertAfterUnlocked(list *storeList, pivotItem *listItem, element []byte) {
+func (dsc *dataStoreCommand) linsertAfterUnlocked(keyName string, list *storeList, pivotItem *listItem, element []byte) {
 	newItem := listItem{
 		element: element,
 	}
@@ -1443,7 +1452,7 @@ func (dsc *dataStoreCommand) linsertAfterUnlocked(list *storeList, pivotItem *li
 	pivotItem.next = &newItem
 
 	list.count++
-	dsc.setDirty()
+	dsc.setModified(keyName)
 }
 
 func (dsc *dataStoreCommand) linsert(keyName string, before bool, pivot, element string) (output respValue) {
@@ -1474,9 +1483,9 @@ func (dsc *dataStoreCommand) linsert(keyName string, before bool, pivot, element
 	}
 
 	if before {
-		dsc.linsertBeforeUnlocked(list, pivotItem, []byte(element))
+		dsc.linsertBeforeUnlocked(keyName, list, pivotItem, []byte(element))
 	} else {
-		dsc.linsertAfterUnlocked(list, pivotItem, []byte(element))
+		dsc.linsertAfterUnlocked(keyName, list, pivotItem, []byte(element))
 	}
 
 	output.data = respInt(list.count)
@@ -1733,7 +1742,7 @@ func (dsc *dataStoreCommand) removeUnlocked(keyName string, list *storeList, ite
 	item.next = nil
 	item.prev = nil
 
-	dsc.setDirty()
+	dsc.setModified(keyName)
 }
 
 func (dsc *dataStoreCommand) lremove(keyName string, element string, count int) (removed int, err *respErrorString) {
@@ -1830,7 +1839,7 @@ func (dsc *dataStoreCommand) lset(keyName string, element string, count int) (ou
 	}
 
 	item.element = []byte(element)
-	dsc.setDirty()
+	dsc.setModified(keyName)
 	output.data = rstrOK
 	return
 }
@@ -1995,7 +2004,7 @@ func (dsc *dataStoreCommand) setHashTableWorker(keyName string, fieldNames, valu
 			added++
 		}
 		m.store(fieldName, values[idx])
-		dsc.setDirty()
+		dsc.setModified(keyName)
 	}
 	return
 }
@@ -2020,7 +2029,7 @@ func (dsc *dataStoreCommand) deleteHashTableFields(keyName string, fieldNames []
 		for _, fieldName := range fieldNames {
 			if m.remove(fieldName) {
 				removed++
-				dsc.setDirty()
+				dsc.setModified(keyName)
 
 				if m.count == 0 {
 					dsc.ds.data.remove(keyName)
@@ -2076,7 +2085,7 @@ func (dsc *dataStoreCommand) fieldAddInt(keyName, fieldName string, delta int64)
 		ve = VALUE_DOESNT_EXIST
 	}
 	m.store(fieldName, fmt.Sprintf("%d", value))
-	dsc.setDirty()
+	dsc.setModified(keyName)
 
 	return
 }
@@ -2131,7 +2140,7 @@ func (dsc *dataStoreCommand) fieldAddFloat(keyName, fieldName string, delta floa
 	}
 
 	m.store(fieldName, strconv.FormatFloat(value, 'f', -1, 64))
-	dsc.setDirty()
+	dsc.setModified(keyName)
 	return
 }
 
@@ -2415,7 +2424,11 @@ func (dsc *dataStoreCommand) setAddWorkerUnlocked(keyName string, memberNames []
 			added++
 		}
 		m.store(memberName, struct{}{})
-		dsc.setDirty()
+		if exists {
+			dsc.setDirty()
+		} else {
+			dsc.setModified(keyName)
+		}
 	}
 	return
 }
@@ -2440,7 +2453,7 @@ func (dsc *dataStoreCommand) deleteSetMembers(keyName string, memberNames []stri
 		for _, memberName := range memberNames {
 			if m.remove(memberName) {
 				removed++
-				dsc.setDirty()
+				dsc.setModified(keyName)
 
 				if m.count == 0 {
 					dsc.ds.data.remove(keyName)
@@ -2908,7 +2921,7 @@ func (dsc *dataStoreCommand) setMove(source, destination, memberName string) (ou
 	}
 
 	ss.remove(memberName)
-	dsc.setDirty()
+	dsc.setModified(source)
 	if ss.count == 0 {
 		dsc.ds.data.remove(source)
 	}
@@ -2937,7 +2950,7 @@ func (dsc *dataStoreCommand) setRemove(keyName string, members []string) (output
 	for _, member := range members {
 		if m.remove(member) {
 			removals++
-			dsc.setDirty()
+			dsc.setModified(keyName)
 
 			if m.count == 0 {
 				dsc.ds.data.remove(keyName)
